@@ -179,6 +179,7 @@ META["C12"] = dict(
     exhaustive_part="",
     trusted_base=COMMON_TB + ["MV.I interval enclosures (exp, sqrt, pi, Phi), proved sound in MV/Proofs/Interval.lean"],
     assumptions=["data inside the boundaries; positive weights; positive bandwidth (or 0 on unweighted samples with non-zero spread)"],
+    search_limit=1500,
 )
 
 META["C04"] = dict(
